@@ -357,6 +357,29 @@ def correspond(pid, tier, backend, gen_args, workdir, stats):
         raise Violation("correspondence broken, then direct oracle: %s" % why,
                         head + diffnote + "# continuation found a failing input: %s\n" % why + text, True)
 
+    # still silent: the same generator with other seeds (implementation only), looking for a history on
+    # which a direct oracle fires
+    if gen_args and gen_args[0] == "gen" and len(gen_args) >= 4:
+        for j in range(1, 13):
+            alt = [gen_args[0], gen_args[1], (int(gen_args[2]) * 31 + j * 7919) % 2000000011, gen_args[3]] + list(gen_args[4:])
+            pfx = os.path.join(workdir, "%s-search-%d" % (backend, j))
+            rc_s, _ = sh([hbv(backend)] + [str(a) for a in alt] + [pfx], timeout=3600)
+            if rc_s != 0 or not os.path.exists(pfx + ".real"):
+                continue
+            hit = first_oracle_hit(pfx + ".ops", pfx + ".real")
+            if hit is None:
+                continue
+            def bad3(t):
+                r, m, rc = replay_on(backend, t, workdir, "shr")
+                return any(ORACLE_RE.search(x) or x.startswith("end ORACLE") for x in r)
+            try:
+                text = shrink(backend, hit["scn"], hit["op_index"] if hit["op_index"] >= 0 else hit["n_ops"], workdir, bad3)
+            except Exception:
+                text = scenario_text(hit["scn"], hit["op_index"] if hit["op_index"] >= 0 else None)
+            o = ORACLE_RE.search(hit["real"]) or re.search(r"end .*", hit["real"])
+            raise Violation("correspondence broken; direct oracle on the implementation on another generated history: %s" % (o.group(0) if o else hit["real"][:200]),
+                            head + diffnote + "# searched batch %s\n" % alt + text, True)
+
     def bad2(t):
         r, m, rc = replay_on(backend, t, workdir, "shr")
         return r != m
